@@ -30,6 +30,12 @@
 
 #define MRB_BUFFER_SIZE (64 * 1024 * 1024)
 
+#if defined(JLS_VERIF) && defined(JLS_VERIF_MRB_BUFFER_SIZE)
+// verification hook: a small queue makes wrap-around and overflow reachable
+#undef MRB_BUFFER_SIZE
+#define MRB_BUFFER_SIZE (JLS_VERIF_MRB_BUFFER_SIZE)
+#endif
+
 
 struct jls_twr_s {
     struct jls_bkt_s * bk;  // REQUIRED first entry
@@ -429,3 +435,16 @@ JLS_API int32_t jls_twr_utc(struct jls_twr_s * self, uint16_t signal_id, int64_t
     };
     return msg_send(self, &hdr, NULL, 0);
 }
+
+#if defined(JLS_VERIF)
+// verification hook: read-only view of the private synchronisation state
+void jls_twr_verif_peek(struct jls_twr_s * self, uint64_t * flush_send_id, uint64_t * flush_processed_id,
+                        int * quit, uint32_t * mrb_head, uint32_t * mrb_tail, uint32_t * mrb_count) {
+    *flush_send_id = self->flush_send_id;
+    *flush_processed_id = self->flush_processed_id;
+    *quit = self->quit;
+    *mrb_head = self->mrb.head;
+    *mrb_tail = self->mrb.tail;
+    *mrb_count = self->mrb.count;
+}
+#endif
